@@ -219,6 +219,13 @@ void
 nni_msgq_aio_put(nni_msgq *mq, nni_aio *aio)
 {
 	nni_mtx_lock(&mq->mq_lock);
+	if (mq->mq_closed) {
+		// nni_msgq_close has already failed everything that was
+		// waiting; nothing would ever complete this one.
+		nni_mtx_unlock(&mq->mq_lock);
+		nni_aio_finish_error(aio, NNG_ECLOSED);
+		return;
+	}
 
 	// If this is an instantaneous poll operation, and the queue has
 	// no room, nobody is waiting to receive, then report NNG_ETIMEDOUT.
@@ -242,6 +249,11 @@ void
 nni_msgq_aio_get(nni_msgq *mq, nni_aio *aio)
 {
 	nni_mtx_lock(&mq->mq_lock);
+	if (mq->mq_closed) {
+		nni_mtx_unlock(&mq->mq_lock);
+		nni_aio_finish_error(aio, NNG_ECLOSED);
+		return;
+	}
 	// Only start the aio if it has to wait (see nni_msgq_aio_put).
 	if ((!nni_list_empty(&mq->mq_aio_getq) ||
 	        ((mq->mq_len == 0) && nni_list_empty(&mq->mq_aio_putq))) &&
